@@ -53,7 +53,7 @@ theorem pubSound_step {c : Cfg} {σ σ' : Sys} (h : PubSound σ) (st : Next c σ
         rw [← e1, hl] at hzd
         simp [hnt] at hzd
       · simp [hds]; exact h2 d z hz hzd
-  | deliver s x rest hc =>
+  | deliver s hs x rest hc =>
     constructor
     · intro d hd
       by_cases hds : d = s
@@ -63,7 +63,7 @@ theorem pubSound_step {c : Cfg} {σ σ' : Sys} (h : PubSound σ) (st : Next c σ
       by_cases hds : d = s
       · subst hds; simp at hy ⊢; exact h2 d y (by simp [hc, hy]) hyd
       · simp [hds] at hy ⊢; exact h2 d y hy hyd
-  | procExit s ok hp => exact ⟨h1, h2⟩
+  | procExit s hs ok hp => exact ⟨h1, h2⟩
   | die s hs hfin hnt =>
     constructor
     · intro d hd
@@ -114,8 +114,8 @@ theorem depsInv_step {c : Cfg} {σ σ' : Sys} (hp : PubSound σ) (h : DepsInv c 
     DepsInv c σ' := by
   cases st with
   | publish s hs hsent hfin => exact h
-  | deliver s x rest hc => exact h
-  | procExit s ok hpr => exact h
+  | deliver s hs x rest hc => exact h
+  | procExit s hs ok hpr => exact h
   | die s hs hfin hnt =>
     intro t ht
     simp only at ht ⊢
@@ -191,8 +191,8 @@ theorem poolInv_init (c : Cfg) : PoolInv c (init c) := by
 theorem poolInv_step {c : Cfg} {σ σ' : Sys} (h : PoolInv c σ) (st : Next c σ σ') : PoolInv c σ' := by
   cases st with
   | publish s hs hsent hfin => exact h
-  | deliver s x rest hc => exact h
-  | procExit s ok hpr => exact h
+  | deliver s hs x rest hc => exact h
+  | procExit s hs ok hpr => exact h
   | die s hs hfin hnt =>
     unfold PoolInv at *
     have key := cnt_upd_lt σ.loc s .Broken c.n hs
@@ -215,7 +215,8 @@ def ProcInv (σ : Sys) : Prop :=
   ∀ s, (σ.proc s = .running → σ.loc s = .Running ∧ σ.frm s = .WaitProcess) ∧
        (σ.loc s = .Running → σ.frm s = .StartProcess → σ.proc s = .idle) ∧
        (σ.loc s = .DoneByRunning → σ.proc s = .exited true) ∧
-       ((σ.loc s).preRun = true → σ.proc s = .idle)
+       ((σ.loc s).preRun = true → σ.proc s = .idle) ∧
+       (σ.loc s = .Running → σ.frm s = .WaitProcess → σ.proc s = .running ∨ σ.proc s = .exited false ∨ σ.proc s = .exited true)
 
 theorem procInv_init (c : Cfg) : ProcInv (init c) := by
   intro s; simp [init, St.preRun]
@@ -223,32 +224,32 @@ theorem procInv_init (c : Cfg) : ProcInv (init c) := by
 theorem procInv_step {c : Cfg} {σ σ' : Sys} (h : ProcInv σ) (st : Next c σ σ') : ProcInv σ' := by
   cases st with
   | publish s hs hsent hfin => exact h
-  | deliver s x rest hc => exact h
-  | procExit s ok hpr =>
+  | deliver s hs x rest hc => exact h
+  | procExit s hs ok hpr =>
     intro t
-    obtain ⟨a, b, c', d⟩ := h t
+    obtain ⟨a, b, c', d, e'⟩ := h t
     by_cases hts : t = s
     · subst hts
       have ha := a hpr
       simp [ha.1, ha.2, St.preRun]
-    · simp [hts]; exact ⟨a, b, c', d⟩
+    · simp [hts]; exact ⟨a, b, c', d, e'⟩
   | die s hs hfin hnt =>
     intro t
-    obtain ⟨a, b, c', d⟩ := h t
+    obtain ⟨a, b, c', d, e'⟩ := h t
     by_cases hts : t = s
     · subst hts
       simp [St.preRun]
       by_cases hr : σ.proc t = .running <;> simp [hr]
-    · simp [hts]; exact ⟨a, b, c', d⟩
+    · simp [hts]; exact ⟨a, b, c', d, e'⟩
   | handler s hs x f e y k hl hf hsent hfin htr g =>
     intro t
-    obtain ⟨a, b, c', d⟩ := h t
+    obtain ⟨a, b, c', d, e'⟩ := h t
     by_cases hts : t = s
     · subst hts
       simp only [upd_same]
       cases g <;> simp [Gen.trans] at htr <;> subst htr <;>
         simp_all [procEffect, St.preRun]
-    · simp [hts]; exact ⟨a, b, c', d⟩
+    · simp [hts]; exact ⟨a, b, c', d, e'⟩
 
 /-- running commands -/
 def cntP (p : Nat → Proc) : Nat → Nat
@@ -265,6 +266,26 @@ theorem cntP_le_cnt {σ : Sys} (h : ProcInv σ) (n : Nat) : cntP σ.proc n ≤ c
       simp [hp, this]; exact ih
     · simp [hp]; omega
 
+/-- two distinct running commands count at least 2 -/
+theorem cntP_one {p : Nat → Proc} {n s : Nat} (hs : s < n) (h : p s = .running) : 1 ≤ cntP p n := by
+  induction n with
+  | zero => omega
+  | succ m ih =>
+    by_cases hm : s = m
+    · subst hm; simp [cntP, h]
+    · have := ih (by omega); simp only [cntP]; omega
+
+theorem cntP_two {p : Nat → Proc} {n s t : Nat} (hst : s < t) (ht : t < n) (h1 : p s = .running)
+    (h2 : p t = .running) : 2 ≤ cntP p n := by
+  induction n with
+  | zero => omega
+  | succ m ih =>
+    by_cases hm : t = m
+    · subst hm
+      have := cntP_one (p := p) hst h1
+      simp only [cntP, h2]; simp; omega
+    · have := ih (by omega); simp only [cntP]; omega
+
 /-! ## a started command had its dependencies finished (and they stay finished) -/
 
 def StartedInv (c : Cfg) (σ : Sys) : Prop := ∀ s, σ.proc s ≠ .idle → DepsOK c σ.loc s
@@ -273,8 +294,8 @@ theorem startedInv_step {c : Cfg} {σ σ' : Sys} (hd : DepsInv c σ') (h : Start
     (st : Next c σ σ') : StartedInv c σ' := by
   cases st with
   | publish s hs hsent hfin => exact h
-  | deliver s x rest hc => exact h
-  | procExit s ok hpr =>
+  | deliver s hs x rest hc => exact h
+  | procExit s hs ok hpr =>
     intro t ht
     by_cases hts : t = s
     · subst hts; exact h t (by rw [hpr]; simp)
